@@ -71,10 +71,12 @@ def fresh_slots(e, roles):
 
 def rule_c20(an, res):
     prop = 'C20'
-    for cm, roles in an.classes(['utlru_cache', 'ut_map']):
+    for cm, roles in an.classes():
+        # utlru_cache and ut_map have clear() on the pinned tree; a clear() added to any other container is held to the same rule
         clears = [m for m in an.entry_points(cm) if ops.kind_of(m) == 'CLEAR']
         if not clears:
-            res.incomplete.append('G-ANCHOR: %s has no clear()' % cm.name)
+            if cm.name in ('utlru_cache', 'ut_map'):
+                res.incomplete.append('G-ANCHOR: %s has no clear()' % cm.name)
             continue
         m = clears[0]
         mutable = written_roles(an, cm, roles)
@@ -414,7 +416,9 @@ def check_plumbing(res, prop, cm, roles, m, top, b):
         dl = deliveries(seg)
         if len(dl) == 1:
             dk, dv, o = dl[0]
-            same_val = bool(res_terms) and (dv == res_terms[-1] or (empty_result(dv) and empty_result(res_terms[-1])))
+            # what an inlined lookup helper returned is what gets delivered; with the lookup written out in the loop itself there
+            # is no such return and the delivered value is judged by R-SIB-BODY (same outcome as the single form) and C01
+            same_val = (not res_terms) or dv == res_terms[-1] or (empty_result(dv) and empty_result(res_terms[-1]))
             if o.kind == 'OUT_CALL':
                 good = dk == key and same_val
             elif o.kind == 'OUT_WR':
